@@ -140,7 +140,7 @@ var props = map[string]propDef{
 		Assumptions: []string{"all commits carry the same (empty) root value and differ by their metadata: the property is about addresses in the dataset map, not table data", "tasks of one process park only at the ChunkStore wrapper (no in-process lock is held there)", "history squashing / rebase are forced moves and are covered as SetHead"},
 		Real:        []string{"go/store/datas (database, datasets, commit/tag/working-set builders)", "go/store/types ValueStore", "go/store/prolly address map", "go/libraries/doltcore/doltdb (DoltDB construction, empty repo)", "go/store/nbs journaling and file-manifest stores"}, Stub: append([]string{"goroutine scheduling (seeded S1 scheduler)"}, storeStub...), Persistence: "not used",
 		ExpectProbes:   []string{"ok:commit", "ok:commitws", "ok:ff", "ok:sethead", "ok:tag", "ok:delete", "ok:updatews", "refused:commit", "refused:commitws", "refused:ff", "refused:updatews", "context-switch", "porcupine_ok"},
-		Quick:          budget{Runs: 400, Chunk: 25, Wall: 150 * time.Second, PerChunkGrace: 120 * time.Second},
+		Quick:          budget{Runs: 2400, Chunk: 50, Wall: 150 * time.Second, PerChunkGrace: 120 * time.Second},
 		Thorough:       budget{Runs: 30000, Chunk: 100, Wall: 40 * time.Minute, PerChunkGrace: 5 * time.Minute},
 		MinimiseBudget: 60 * time.Second,
 	},
@@ -180,7 +180,7 @@ var props = map[string]propDef{
 		Assumptions: []string{"statements are limited to forms the row-level reference model predicts exactly (literal INSERT, UPDATE/DELETE by key, UPDATE by indexed column, full / key / index reads, START TRANSACTION, COMMIT, ROLLBACK)", "one branch, one table with two secondary indexes, small value domains so that sessions collide"},
 		Real:        []string{"cmd/dolt/commands/engine (production SqlEngine via NewSqlEngineForEnv)", "go-mysql-server engine, analyzer, executor", "sqle / dsess (sessions, transactions, transaction merge at commit)", "doltdb, datas, prolly, nbs journaling store on the simulated OS"}, Stub: []string{"MySQL wire protocol and listener (sessions are created the way the handler does: own connection id, autocommit set explicitly)", "statement-level interleaving only (S0: one statement of one session at a time)", "stats / event scheduler / binlog background threads (left idle)", "clock (testing/synctest fake clock)"}, Persistence: "not used (clean restarts only)",
 		ExpectProbes:   []string{"commit_ok", "commit-merged-with-concurrent-transaction", "add-index", "drop-index"},
-		Quick:          budget{Runs: 160, Chunk: 10, Wall: 150 * time.Second, PerChunkGrace: 120 * time.Second},
+		Quick:          budget{Runs: 480, Chunk: 15, Wall: 150 * time.Second, PerChunkGrace: 120 * time.Second},
 		Thorough:       budget{Runs: 8000, Chunk: 40, Wall: 40 * time.Minute, PerChunkGrace: 5 * time.Minute},
 		MinimiseBudget: 90 * time.Second,
 	},
